@@ -22,23 +22,26 @@ var intrinsics map[string]intrinsicFn
 
 func init() {
 	intrinsics = map[string]intrinsicFn{
-		"crypto/hmac.New":            inHmacNew,
-		"(*sync.Pool).Get":           inPoolGet,
-		"(*sync.Pool).Put":           inPoolPut,
-		"strings.TrimSpace":          inTrimSpace,
-		"strings.ToUpper":            func(e *Exec, a []Value, s *ssa.CallCommon) Value { return inCaseMap(e, a, true) },
-		"strings.ToLower":            func(e *Exec, a []Value, s *ssa.CallCommon) Value { return inCaseMap(e, a, false) },
-		"strings.Repeat":             inRepeat,
-		"strings.Split":              func(e *Exec, a []Value, s *ssa.CallCommon) Value { return inSplit(e, a[0], a[1], nil) },
-		"strings.SplitN":             func(e *Exec, a []Value, s *ssa.CallCommon) Value { return inSplit(e, a[0], a[1], a[2].(*Term)) },
-		"strings.Clone":              func(e *Exec, a []Value, s *ssa.CallCommon) Value { return a[0] },
-		"internal/stringslite.Clone": func(e *Exec, a []Value, s *ssa.CallCommon) Value { return a[0] },
-		"strings.Contains":           inContains,
-		"fmt.Sprintf":                inSprintf,
-		"fmt.Errorf":                 inErrorf,
-		"fmt.Sprint":                 inSprint,
-		"crypto/rand.Read":           inRandRead,
-		"(*crypto/rand.reader).Read": inReaderRead,
+		"crypto/hmac.New":                           inHmacNew,
+		"(*sync.Pool).Get":                          inPoolGet,
+		"(*sync.Pool).Put":                          inPoolPut,
+		"strings.TrimSpace":                         inTrimSpace,
+		"strings.ToUpper":                           func(e *Exec, a []Value, s *ssa.CallCommon) Value { return inCaseMap(e, a, true) },
+		"strings.ToLower":                           func(e *Exec, a []Value, s *ssa.CallCommon) Value { return inCaseMap(e, a, false) },
+		"strings.Repeat":                            inRepeat,
+		"strings.Split":                             func(e *Exec, a []Value, s *ssa.CallCommon) Value { return inSplit(e, a[0], a[1], nil) },
+		"strings.SplitN":                            func(e *Exec, a []Value, s *ssa.CallCommon) Value { return inSplit(e, a[0], a[1], a[2].(*Term)) },
+		"strings.Clone":                             func(e *Exec, a []Value, s *ssa.CallCommon) Value { return a[0] },
+		"internal/stringslite.Clone":                func(e *Exec, a []Value, s *ssa.CallCommon) Value { return a[0] },
+		"strings.ReplaceAll":                        func(e *Exec, a []Value, s *ssa.CallCommon) Value { return inReplace(e, a[0], a[1], a[2], nil) },
+		"strings.Replace":                           func(e *Exec, a []Value, s *ssa.CallCommon) Value { return inReplace(e, a[0], a[1], a[2], a[3].(*Term)) },
+		"strings.IndexByte":                         inIndexByte,
+		"strings.Contains":                          inContains,
+		"fmt.Sprintf":                               inSprintf,
+		"fmt.Errorf":                                inErrorf,
+		"fmt.Sprint":                                inSprint,
+		"crypto/rand.Read":                          inRandRead,
+		"(*crypto/rand.reader).Read":                inReaderRead,
 		"crypto/internal/boring/sig.StandardCrypto": func(e *Exec, a []Value, s *ssa.CallCommon) Value { return &TupleV{} },
 		"internal/bytealg.MakeNoZero":               inMakeNoZero,
 		"crypto/subtle.XORBytes":                    nil,
@@ -65,15 +68,16 @@ func init() {
 // ---------- HMAC as an uninterpreted function ----------
 
 type hmacObj struct {
-	seq    int
-	alg    string
-	width  int
-	key    []*Term
-	msg    []*Term
-	digest []*Term
-	sums   int
-	writes int
-	resets int
+	seq     int
+	alg     string
+	width   int
+	key     []*Term
+	msg     []*Term
+	digest  []*Term
+	sums    int
+	writes  int
+	resets  int
+	symLens []*Term // lengths of message chunks written with a symbolic length
 }
 
 var hashAlgs = map[string]struct {
@@ -149,7 +153,7 @@ func (e *Exec) hmacDigest(h *hmacObj) []*Term {
 		h.digest = out
 		return out
 	}
-	if e.opaque["hmacfresh"] == true {
+	if e.opaque["hmacfresh"] == true || len(h.symLens) > 0 {
 		// digest as fresh variables; calls with structurally identical (algorithm, key, message)
 		// share them (sound: identical terms denote identical values), other pairs are unrelated
 		var sb strings.Builder
@@ -160,6 +164,9 @@ func (e *Exec) hmacDigest(h *hmacObj) []*Term {
 		sb.WriteString("|")
 		for _, t := range h.msg {
 			fmt.Fprintf(&sb, ",%d", t.id)
+		}
+		for _, t := range h.symLens {
+			fmt.Fprintf(&sb, ";%d", t.id)
 		}
 		memo, _ := e.opaque["hmacmemo"].(map[string][]*Term)
 		if memo == nil {
@@ -201,6 +208,21 @@ func (e *Exec) opaqueInvoke(ov *OpaqueV, method string, args []Value, c *ssa.Cal
 			if s.arr != nil {
 				e.noteRead(s.arr.obj)
 			}
+			if !s.len.IsConst() {
+				if v, ok := e.uniqueValue(s.len); ok {
+					s = &SliceV{arr: s.arr, off: s.off, len: e.c64(v), cap: s.cap}
+				}
+			}
+			if !s.len.IsConst() && s.arr != nil && s.off.IsConst() {
+				// message chunk of symbolic length: kept as (window bytes, length term); the digest is then a
+				// fresh value shared between structurally identical (key, chunks) only
+				win := e.windowBytes(s.arr, int(s.off.val))
+				h.msg = append(h.msg, win...)
+				h.symLens = append(h.symLens, s.len)
+				h.writes++
+				h.digest = nil
+				return &TupleV{E: []Value{s.len, &IfaceV{}}}
+			}
 			bs := e.sliceBytes(s)
 			if h.sums > 0 {
 				h.digest = nil
@@ -218,6 +240,7 @@ func (e *Exec) opaqueInvoke(ov *OpaqueV, method string, args []Value, c *ssa.Cal
 			return e.appendOp(args[0].(*SliceV), src, nil)
 		case "Reset":
 			h.msg = nil
+			h.symLens = nil
 			h.digest = nil
 			h.resets++
 			return &TupleV{}
@@ -940,4 +963,45 @@ func inReaderRead(e *Exec, args []Value, site *ssa.CallCommon) Value {
 	e.randStreams = append(e.randStreams, stream)
 	e.randLens = append(e.randLens, n)
 	return &TupleV{E: []Value{n, &IfaceV{}}}
+}
+
+// strings.Replace(All) for a one-byte old string: one path per set of matching positions
+func inReplace(e *Exec, sv, oldv, newv Value, n *Term) Value {
+	s := sv.(*StrV)
+	old, ok1 := e.concreteString(oldv.(*StrV))
+	nw, ok2 := e.concreteString(newv.(*StrV))
+	if !ok1 || !ok2 || len(old) != 1 || (n != nil && (!n.IsConst() || int64(n.val) >= 0)) {
+		panic(e.unsupported("strings.Replace with symbolic or multi-byte pattern or a count"))
+	}
+	bs := e.strBytes(s)
+	var out []*Term
+	changed := false
+	for _, c := range bs {
+		if e.branch(e.tb.Eq(c, e.tb.Const(8, uint64(old[0]))), "replace-match") {
+			changed = true
+			for i := 0; i < len(nw); i++ {
+				out = append(out, e.tb.Const(8, uint64(nw[i])))
+			}
+		} else {
+			out = append(out, c)
+		}
+	}
+	if !changed {
+		return s
+	}
+	if len(out) == 0 {
+		return e.constString("")
+	}
+	return e.mkString(out)
+}
+
+func inIndexByte(e *Exec, args []Value, site *ssa.CallCommon) Value {
+	bs := e.strBytes(args[0].(*StrV))
+	c := args[1].(*Term)
+	for i, b := range bs {
+		if e.branch(e.tb.Eq(b, c), "indexbyte") {
+			return e.c64(int64(i))
+		}
+	}
+	return e.tb.Const(64, ^uint64(0))
 }
